@@ -189,11 +189,12 @@ PROPS = {
         rule=("owned mode: 2..5 writers with payloads of 1..4000 bytes (one to four frames) and a choice list of 4n..6n entries; free mode: repetitions with 2..8 writers x 3..7 writes each, every second one with a keep-alive ticker. "
               "Non-trivial: at least 2 writers had entered the write path before the first of them completed. Distinct by (payload lengths, choice list)."),
         assumptions=["writers use Connection.Write (the path of responses, notifications and keep-alives)"],
-        essential_classes=["writers=2", "writers=5", "multi-frame-payload", "free:keep-alive", "regress"],
+        essential_classes=["writers=2", "writers=5", "multi-frame-payload", "payload>8192", "free:keep-alive", "regress", "transport:5-notifiers+requests"],
         jobs=[
             dict(test="TestC08Regress", kind="plain"),
             dict(test="TestC08Owned", kind="rapid", checks={Q: 40, T: 1200}, shards=16),
             dict(test="TestC08Free", kind="plain", shards={Q: 4, T: 16}, env={"VERIF_C08_REPS": {Q: 40, T: 400}}),
+            dict(test="TestC08Transport", kind="plain", shards={Q: 2, T: 8}, env={"VERIF_C08_TREPS": {Q: 2, T: 8}}),
             dict(test="TestC08Free", kind="plain", race=True, tiers=[T], shards=4, env={"VERIF_C08_REPS": {T: 300}}),
         ],
     ),
@@ -303,7 +304,7 @@ PROPS = {
         rule=("rapid cases: accessories in {1,2,4,11,41,120}, 1..6 characteristics per service, constructor window offset drawn; 3..15 actions from {set+GET one id, set several + GET many ids, set several + GET /accessories, PUT}. "
               "Non-trivial: a value different from the default was set or written, or the id list contained a missing id, or the response spanned several frames. Distinct by (database shape, action history). coverage.extra counts how often each constructor's characteristic was set."),
         assumptions=["application-side values are inside the characteristic's declared bounds"],
-        essential_classes={Q: ["format:bool/set", "format:float/set", "format:string/set", "format:tlv8/set", "format:uint8/put", "missing-id", "write-only-id", "accessories", "multi-frame-response", "concurrent-controllers"],
+        essential_classes={Q: ["format:bool/set", "format:float/set", "format:string/set", "format:tlv8/set", "format:uint8/put", "missing-id", "write-only-id", "accessories", "multi-frame-response", "concurrent-controllers", "missing-id:unknown-aid+known-iid", "missing-id:iid-of-other-accessory"],
                            T: ["format:bool/set", "format:float/set", "format:string/set", "format:tlv8/set", "format:uint8/put", "format:string/put", "missing-id", "write-only-id", "repeated-id", "accessories", "multi-frame-response", "response>100k", "accessories=120"]},
         jobs=[
             dict(test="TestC09Prop", kind="rapid", checks={Q: 60, T: 2500}, shards=14),
@@ -318,7 +319,7 @@ PROPS = {
         level_note="Trusted: refctl's event reader; the fact that hc writes notifications synchronously inside SetValue / the PUT handler, which makes the synchronising request sufficient without sleeps. ProgrammableSwitchEvent (specified to notify on equal values) is not part of the test bed. Event entries are counted, not messages (batching is allowed).",
         rule=("rapid state machine (about 30 actions) over 5 action kinds, 2..4 controllers, 7 characteristics. Non-trivial: a history with a change while at least 2 connections are subscribed and a change after an unsubscribe or a close. Distinct by history."),
         assumptions=["values written stay inside bounds so that the model needs no clamping"],
-        essential_classes=["event-delivered", "change-with>=2-subscribers", "change-after-unsubscribe-or-close", "subscribe-non-ev-rejected", "same-value-update", "originator-subscribed", "reconnect", "write-with-ev", "close-with-subscriptions", "write-beyond-bounds", "same-iid-on-two-accessories-asymmetric", "reset-then-change"],
+        essential_classes=["event-delivered", "change-with>=2-subscribers", "change-after-unsubscribe-or-close", "subscribe-non-ev-rejected", "same-value-update", "originator-subscribed", "reconnect", "write-with-ev", "close-with-subscriptions", "write-beyond-bounds", "same-iid-on-two-accessories-asymmetric", "reset-then-change", "concurrent-changes"],
         jobs=[
             dict(test="TestC10Regress", kind="plain"),
             dict(test="TestC10Prop", kind="rapid", checks={Q: 40, T: 2500}, shards=16, steps=80),
